@@ -398,6 +398,7 @@ func kernelTraffic(c *corr.Ctx, sc *Scenario, cfg kcfg) error {
 		return err
 	}
 	defer kc.c.Close()
+	began := time.Now()
 	s := k.session(0)
 	if s == nil {
 		return errors.New("no session")
@@ -515,6 +516,10 @@ func kernelTraffic(c *corr.Ctx, sc *Scenario, cfg kcfg) error {
 	time.Sleep(30 * time.Millisecond) // sockets without a fence of their own (other listeners)
 	sv1, cv1 := serverView(s), clientView(kc)
 	ls1 := gortsplib.VerifPeerClientListeners(kc.c)
+	if time.Since(began) > 3*time.Second {
+		// the library's own periodic RTCP reports (5 s / 10 s) could fall into the window: no verdict
+		return errors.New("too slow: periodic reports may have been counted")
+	}
 
 	// expected: exactly the fence
 	expS, expC := sv0, cv0
@@ -644,7 +649,7 @@ func kernelTimeout(c *corr.Ctx, sc *Scenario, cfg kcfg) error {
 		if time.Since(started) > check*3/4 {
 			return errors.New("too slow: the timeout check may have run before the datagrams were sent")
 		}
-		wait := 3 * time.Second
+		wait := 20 * time.Second // normally over after one check period
 		if legit {
 			wait = check + 250*time.Millisecond
 		}
@@ -716,7 +721,7 @@ func kernelTimeout(c *corr.Ctx, sc *Scenario, cfg kcfg) error {
 	if time.Since(started) > check*3/4 {
 		return errors.New("too slow: the timeout check may have run before the datagrams were sent")
 	}
-	wait := 3 * time.Second
+	wait := 20 * time.Second // normally over after one check period
 	if legit {
 		wait = check + 250*time.Millisecond
 	}
